@@ -11,7 +11,15 @@ from .model import Contract, Loop
 from . import solve
 
 
+def clause(e):
+    """A contract clause is an expression string or (expression, [property ids])."""
+    if isinstance(e, tuple):
+        return e[0], ([e[1]] if isinstance(e[1], str) else list(e[1]))
+    return e, None
+
+
 class Executor(ExprMixin, StmtMixin, Engine):
+    clause_props = None
 
     def __init__(self, model, repo_root):
         super().__init__(model, repo_root)
@@ -30,8 +38,10 @@ class Executor(ExprMixin, StmtMixin, Engine):
     def contract_fields(self, c, whole=False):
         out = set()
         for mfy in c.modifies:
-            if mfy.startswith('F:'):
+            if mfy.startswith(('F:', 'N:')):
                 cls, f = mfy[2:].split('.')
+                if mfy.startswith('N:') and not whole:
+                    continue
                 out.add((self.field_owner(cls, f), f))
             elif mfy.startswith(('G:', 'P:')):
                 continue
@@ -46,6 +56,16 @@ class Executor(ExprMixin, StmtMixin, Engine):
                 out.add((self.field_owner(t.cls, f), f))
         return out
 
+    def fresh_only_fields(self):
+        c = self.m.contracts[self.cur_fn_stack[0]]
+        out = set()
+        others = set()
+        for mfy in c.modifies:
+            if mfy.startswith('N:'):
+                cls, f = mfy[2:].split('.')
+                out.add((self.field_owner(cls, f), f))
+        return out - self.contract_fields(c, whole=False)
+
     def contract_globals(self, c):
         return {m[2:] for m in c.modifies if m.startswith('G:')}
 
@@ -58,7 +78,7 @@ class Executor(ExprMixin, StmtMixin, Engine):
                 cls, f = mfy[2:].split('.')
                 if f == field and self.field_owner(cls, f) == owner:
                     return
-            elif not mfy.startswith(('G:', 'P:')):
+            elif not mfy.startswith(('G:', 'P:', 'N:')):
                 p, f = mfy.split('.')
                 if f != field:
                     continue
@@ -595,7 +615,10 @@ class Executor(ExprMixin, StmtMixin, Engine):
         # 1. precondition
         for j, r in enumerate(c.requires):
             g = self.spec(r, st, args, st)
-            self.prove(st, g, 'pre', line, '%s.%d' % (cname, j), text=r)
+            if getattr(self.m.contracts[self.cur_fn_stack[0]], 'assume_callee_pre', False):
+                st.assume(g)      # this view leaves callee preconditions to the main view
+            else:
+                self.prove(st, g, 'pre', line, '%s.%d' % (cname, j), text=r)
         old = st.fork()
         # 2. exceptional edges
         normal_guard = []
@@ -625,9 +648,9 @@ class Executor(ExprMixin, StmtMixin, Engine):
         for pn, nv in rebinds.items():
             extra['new_' + pn] = nv
         for e in c.ensures:
+            if isinstance(e, tuple):
+                continue    # property-level clauses are checked on the callee, never assumed by callers
             st.assume(self.spec(e, st, extra, old))
-        if c.allocates:
-            pass
         # write back rebinding of list parameters
         states = [st]
         for pn, nv in rebinds.items():
@@ -664,10 +687,13 @@ class Executor(ExprMixin, StmtMixin, Engine):
 
     def apply_exc_post(self, st, c, args, old):
         for e in c.ensures_exc:
+            if isinstance(e, tuple):
+                continue
             st.assume(self.spec(e, st, args, old))
 
     def havoc_modifies(self, st, c, args, node):
         rebinds = {}
+        bump = False
         for mfy in c.modifies:
             if mfy.startswith('G:'):
                 key = mfy[2:]
@@ -678,6 +704,14 @@ class Executor(ExprMixin, StmtMixin, Engine):
                 k, arr, t = self.heap_arr(st, cls, f)
                 self.check_callee_field(st, k, None)
                 st.heap[k] = z3.Const(fresh_name('H_%s_%s' % k), arr.sort())
+            elif mfy.startswith('N:'):
+                # the callee writes this field only on objects it allocates itself
+                cls, f = mfy[2:].split('.')
+                k, arr, t = self.heap_arr(st, cls, f)
+                fr = z3.Const(fresh_name('H_%s_%s' % k), arr.sort())
+                r = z3.Int(fresh_name('r'))
+                st.heap[k] = z3.Lambda([r], z3.If(r < st.alloc, z3.Select(arr, r), z3.Select(fr, r)))
+                bump = True
             elif mfy.startswith('P:'):
                 pn = mfy[2:]
                 rebinds[pn] = self.fresh_val(st, args[pn].t, pn)
@@ -689,6 +723,11 @@ class Executor(ExprMixin, StmtMixin, Engine):
                 k, arr, t = self.heap_arr(st, ref.t.cls, f)
                 self.check_callee_field(st, k, ref)
                 st.heap[k] = z3.Store(arr, ref.e, fresh(t, f).e)
+        if bump:
+            na = z3.Int(fresh_name('alloc'))
+            st.assume(na >= st.alloc)
+            st.ghost['__alloc_before_call__'] = st.alloc
+            st.alloc = na
         return rebinds
 
     def check_callee_global(self, st, key):
@@ -841,7 +880,7 @@ class Executor(ExprMixin, StmtMixin, Engine):
     def _verify(self, key, c, fdef):
         self.index_loops(key, fdef)
         self.cur_module = key.split(':')[0]
-        qual = key.split(':')[1].split('.')
+        qual = key.split('#')[0].split(':')[1].split('.')
         self.cur_class = qual[0] if len(qual) > 1 else None
         self.local_types = c.body_types
         self.cur_fn_stack = [key]
@@ -879,8 +918,12 @@ class Executor(ExprMixin, StmtMixin, Engine):
                 if cond is not None:
                     self.prove(s1, self.spec(cond, old, {}, old), 'raises-only-if', exc.line, exc.name, text=cond)
                 for j, e in enumerate(c.ensures_exc):
+                    e, props = clause(e)
+                    self.clause_props = props
                     self.prove(s1, self.spec(e, s1, self.entry_extra(s1), old), 'post-exc', exc.line,
-                               '%d:%s' % (j, exc.name), text=e)
+                               '%d:%s' % (j, exc.name), text=e,
+                               stable_name='%s:post-exc:%d' % (key.split(':')[1], j))
+                    self.clause_props = None
                 continue
             if out.kind in ('break', 'continue'):
                 raise OutOfSubset('break/continue outside loop')
@@ -899,8 +942,11 @@ class Executor(ExprMixin, StmtMixin, Engine):
                     # "iff": a normal exit is only allowed when the raise condition was false
                     self.prove(s1, z3.Not(self.spec(cond, old, {}, old)), 'raises-iff', line, exc, text=cond)
             for j, e in enumerate(c.ensures):
+                e, props = clause(e)
+                self.clause_props = props
                 self.prove(s1, self.spec(e, s1, extra, old), 'post', line, str(j), text=e,
                            stable_name='%s:post:%d' % (key.split(':')[1], j))
+                self.clause_props = None
             # frame for globals not in modifies: proved at each write; nothing to do here
         if n_exits == 0:
             self.results.append(ObResult(key.split(':')[1] + ':no-exit-path', 'cover', key, 0, 'undecided',
